@@ -56,8 +56,15 @@ def log1(ctx):
             if before and after:
                 bad.append(m)
         n += 1
+        wit = None
+        if bad:
+            for e in exits:
+                w_ = b.witness(bad[0], e, avoid=logs)
+                if w_:
+                    wit = {'path_from_update_to_ok': w_, 'path_from_entry_to_update': b.witness(b.entry, bad[0], avoid=logs)}
+                    break
         ctx.check(not bad, '%s:mem-logged' % b.path, where(b, (bad or ms)[0]), 'every success path through an in-memory update also writes a WAL entry',
-                  'an in-memory update can reach a successful return without any WAL entry being written (lost at the next restart)')
+                  'an in-memory update can reach a successful return without any WAL entry being written (lost at the next restart)', detail=wit)
     if n == 0:
         ctx.missing('api', 'no mutating API body with an in-memory update found')
 
